@@ -226,6 +226,9 @@ def gen_atom(rng, opts):
         if c == 9:
             return ("cmp", "time", (("map", "raise"),), rng.choice(ops), ("T", rng.choice(GRID), 0))
         if c == 0:
+            if rng.random() < 0.5:
+                # several distinct stored tag values have the same image ("", "a", "b" -> "short"; None has none: false)
+                return ("cmp", "tags", (rng.choice(TAG_KEYS), ("map", "size")), rng.choice(["==", "==", "!=", "<"]), rng.choice(["short", "short", "long"]))
             return ("cmp", "tags", (rng.choice(TAG_KEYS), ("map", "upper")), "==", rng.choice(["A", "B", "A1", ""]))
         if c == 1:
             return ("cmp", "fields", (rng.choice(FIELD_KEYS), ("map", "neg")), rng.choice(ops), rng.choice([0, 1, -1]))
